@@ -617,15 +617,17 @@ type recResp struct {
 	Completed bool
 	Payload   int
 	Stats     []byte `json:"-"`
+	Raw       []byte `json:"-"` // payload bytes, kept only when the stream is asked to (requesting-side phase)
 }
 
 type recStream struct {
 	grpc.ServerStream
-	parent *recStream // responses are recorded in one place
-	ctx    context.Context
-	reqs   chan *protoCommonV1.TaskRequest
-	mu     sync.Mutex
-	resps  map[string][]recResp
+	parent  *recStream // responses are recorded in one place
+	keepRaw bool
+	ctx     context.Context
+	reqs    chan *protoCommonV1.TaskRequest
+	mu      sync.Mutex
+	resps   map[string][]recResp
 }
 
 func (s *recStream) Context() context.Context { return s.ctx }
@@ -635,7 +637,11 @@ func (s *recStream) Send(r *protoCommonV1.TaskResponse) error {
 		return s.parent.Send(r)
 	}
 	s.mu.Lock()
-	s.resps[r.RequestID] = append(s.resps[r.RequestID], recResp{ReqID: r.RequestID, ErrMsg: r.ErrMsg, Completed: r.Completed, Payload: len(r.Payload), Stats: r.Stats})
+	rr := recResp{ReqID: r.RequestID, ErrMsg: r.ErrMsg, Completed: r.Completed, Payload: len(r.Payload), Stats: r.Stats}
+	if s.keepRaw {
+		rr.Raw = append([]byte(nil), r.Payload...)
+	}
+	s.resps[r.RequestID] = append(s.resps[r.RequestID], rr)
 	s.mu.Unlock()
 	return nil
 }
